@@ -3,6 +3,7 @@ package goat
 import (
 	"context"
 	"fmt"
+	"math"
 	"reflect"
 	"strconv"
 	"strings"
@@ -617,12 +618,20 @@ func contextFromHeaders(
 
 // See https://grpc.io/docs/guides/wire.html#requests
 func parseGrpcTimeout(timeout string) (time.Duration, bool) {
-	if timeout == "" {
+	if len(timeout) < 2 {
 		return 0, false
 	}
 	suffix := timeout[len(timeout)-1]
+	digits := timeout[:len(timeout)-1]
 
-	val, err := strconv.ParseInt(timeout[:len(timeout)-1], 10, 64)
+	// The value is an unsigned decimal integer: no sign, no spaces.
+	for i := 0; i < len(digits); i++ {
+		if digits[i] < '0' || digits[i] > '9' {
+			return 0, false
+		}
+	}
+
+	val, err := strconv.ParseInt(digits, 10, 64)
 	if err != nil {
 		return 0, false
 	}
@@ -647,6 +656,12 @@ func parseGrpcTimeout(timeout string) (time.Duration, bool) {
 	unit := getUnit(suffix)
 	if unit == 0 {
 		return 0, false
+	}
+
+	// Saturate rather than overflow: "99999999H" must not wrap to a short or
+	// negative duration.
+	if val > math.MaxInt64/int64(unit) {
+		return time.Duration(math.MaxInt64), true
 	}
 
 	return time.Duration(val) * unit, true
